@@ -415,20 +415,49 @@ Section Proofs.
   Definition finish (acks : nat) (r : res tlv_err (list item)) : reasm :=
     match r with Ok x => RDone acks x | Err e => RFail acks e | _ => RCrash end.
 
-  Theorem reassemble_split : forall ps last max buf acks,
+  Definition finish_s (acks : nat) (sib : list item) (r : res tlv_err (list item)) : reasm :=
+    match r with Ok x => RDone acks (sib ++ x) | Err e => RFail acks e | _ => RCrash end.
+
+  Lemma nonfrag_frag k p : (k = 12 \/ k = 13)%N -> nonfrag [(k, p)] = [].
+  Proof. intros [->| ->]; reflexivity. Qed.
+
+  (* pure fragment payloads carry no sibling items: whatever siblings were collected before stay in front *)
+  Theorem reassemble_split_sib : forall ps last max buf sib acks,
       length ps < max ->
-      reassemble max (map (reply_of 12) ps ++ [reply_of 13 last]) buf acks
-      = finish (acks + length ps) (decode (buf ++ concat ps ++ last)).
+      reassemble max (map (reply_of 12) ps ++ [reply_of 13 last]) buf sib acks
+      = finish_s (acks + length ps) sib (decode (buf ++ concat ps ++ last)).
   Proof.
-    induction ps as [|p ps IH]; intros last max buf acks Hmax.
+    induction ps as [|p ps IH]; intros last max buf sib acks Hmax.
     - destruct max as [|m]; [cbn in Hmax; lia|].
       cbn [map app reassemble]. rewrite decode_reply by (reflexivity || discriminate).
+      rewrite nonfrag_frag by (right; reflexivity). rewrite app_nil_r.
       cbn [lookup N.eqb Pos.eqb concat app]. rewrite Nat.add_0_r.
-      destruct (decode (buf ++ last)) as [r|e| |]; reflexivity.
+      unfold finish_buf, finish_s. destruct (decode (buf ++ last)) as [r|e| |]; reflexivity.
     - destruct max as [|m]; [cbn in Hmax; lia|].
       cbn [map app reassemble]. rewrite decode_reply by (reflexivity || discriminate).
+      rewrite nonfrag_frag by (left; reflexivity). rewrite app_nil_r.
       cbn [lookup N.eqb Pos.eqb].
       rewrite IH by (cbn [length] in Hmax; lia).
       cbn [concat length]. rewrite <- !app_assoc. f_equal. lia.
+  Qed.
+
+  Theorem reassemble_split : forall ps last max buf acks,
+      length ps < max ->
+      reassemble max (map (reply_of 12) ps ++ [reply_of 13 last]) buf [] acks
+      = finish (acks + length ps) (decode (buf ++ concat ps ++ last)).
+  Proof.
+    intros. rewrite reassemble_split_sib by assumption.
+    unfold finish_s, finish. destruct (decode _); reflexivity.
+  Qed.
+
+  (* nothing sent beside a fragment item is lost: a payload [sibs ++ FragmentLast last] whose sibling items are
+     well-formed non-fragment items yields them in front of the reassembled items *)
+  Theorem reassemble_keeps_siblings : forall max buf sib acks data items last,
+      decode data = Ok items -> lookup 13 items = Some last ->
+      reassemble (S max) [data] buf sib acks = finish_s acks (sib ++ nonfrag items) (decode (buf ++ last)).
+  Proof.
+    intros max buf sib acks data items last Hd Hl.
+    cbn [reassemble]. rewrite Hd, Hl. unfold finish_buf, finish_s.
+    destruct (decode (buf ++ last)); reflexivity.
   Qed.
 End Proofs.
